@@ -751,6 +751,7 @@ pub fn run(task: &str) -> Option<EvalResult> {
         "trusted_paths_ground" => Some(trusted_paths_ground()),
         "sig_paths_ground" => Some(sig_paths_ground()),
         "relations_ground" => Some(crate::relations::relations_ground()),
+        "builders_ground" => Some(crate::builders::builders_ground()),
         "pos_v2_hash" => Some(pos_v2_hash()),
         "datalayer_ground" => Some(datalayer_ground()),
         "bls_cache_ground" => Some(bls_cache_ground()),
